@@ -49,6 +49,9 @@ func (pdist *Scheduler) Schedule(ctx context.Context, offset uint64, publish *pa
 	return nil
 }
 
+// remoteWriteTimeout bounds the time spent waiting for one remote node to store a publish.
+const remoteWriteTimeout = 800 * time.Millisecond
+
 type publishDistributorTransport interface {
 	Call(id uint64, f func(*grpc.ClientConn) error) error
 }
@@ -86,7 +89,10 @@ func (storer *PublishDistributor) Distribute(ctx context.Context, publish *packe
 			continue
 		}
 		err := storer.Transport.Call(peer, func(c *grpc.ClientConn) error {
-			_, err := api.NewMQTTClient(c).ScheduleMessage(ctx, &api.ScheduleMessageRequest{Message: publish})
+			// a peer that does not answer must not hold up the other destinations
+			callCtx, cancel := context.WithTimeout(ctx, remoteWriteTimeout)
+			defer cancel()
+			_, err := api.NewMQTTClient(c).ScheduleMessage(callCtx, &api.ScheduleMessageRequest{Message: publish})
 			return err
 		})
 		if err != nil {
